@@ -76,6 +76,10 @@ def parse_type(s):
         s, _, default = s.partition(" default=")
         s = s.strip()
         default = default.strip()
+    if " of=" in s:
+        # map:<k>:ref of=<Class>: the class of the dictionary's values
+        s, _, cls = s.partition(" of=")
+        s, cls = s.strip(), cls.strip()
     if s.startswith("ref:"):
         cls = s[4:]
         s = "ref"
@@ -409,7 +413,11 @@ class Executor(object):
         elif k == "bits":
             t = z3.Not(self.bits.is_zero(v.t))
         elif k == "ref":
-            return v.t != NONE
+            n = self.len_of_ref(v)
+            if n is None:
+                return v.t != NONE
+            # bool(obj) is len(obj) != 0 for a class that defines __len__
+            return z3.And(v.t != NONE, n > 0)
         elif k == "str":
             t = v.t != self.str_const("")
         elif k == "py":
@@ -423,6 +431,30 @@ class Executor(object):
         if v.none is not None:
             return z3.And(z3.Not(v.none), t)
         return t
+
+    iter_views = {}
+    _last_st = None
+
+    def len_of_ref(self, v):
+        """None when the truth value of the object is just "is not None"; a length term when its class defines __len__
+        over a container the suite names (iter_views); otherwise the truth value is outside the model"""
+        if v.cls is None or self.spec:
+            return None
+        if self._find_method(v.cls, "__bool__") is not None:
+            raise Unsupported("truthiness of an object whose class defines __bool__ (%s)" % v.cls)
+        if self._find_method(v.cls, "__len__") is None:
+            return None
+        st = self._last_st
+        for cname in self._mro(v.cls):
+            view = self.iter_views.get(cname)
+            if view is not None and st is not None:
+                key, f = self.field(cname, view)
+                arr, n = self.heap_arrays(st, key, f)
+                if f.kind == "lenlist":
+                    return z3.Select(arr, v.t)
+                if f.kind.startswith("reflist"):
+                    return z3.Select(n, v.t)
+        raise Unsupported("truthiness of an object whose class defines __len__ (%s): name its container in iter_views" % v.cls)
 
     def is_none(self, v):
         if v.kind == "none":
@@ -523,6 +555,7 @@ class Executor(object):
 
     # ------------------------------------------------------------------ expressions
     def ev(self, e, st):
+        self._last_st = st
         m = getattr(self, "ev_" + type(e).__name__, None)
         if m is None:
             raise Unsupported("expression %s at line %s" % (type(e).__name__, getattr(e, "lineno", "?")))
